@@ -95,31 +95,47 @@ def _embedded(sel: Dict[str, Any]):
     e = sel.get("e") if sel.get("t") == "filter" else None
     if not e:
         return None
-    if e.get("t") == "rel" and len(e["q"]["segs"]) == 1 and e["q"]["segs"][0]["k"] == "desc":
+    if e.get("t") in ("rel", "root") and len(e["q"]["segs"]) == 1 and e["q"]["segs"][0]["k"] == "desc":
         return e["q"]["segs"][0], None
     if e.get("t") == "cmp" and e["op"] == ">" and e["l"].get("t") == "call" and e["l"]["name"] == "count" and e["r"].get("t") == "lit":
         a = e["l"]["args"][0]
-        if a.get("t") == "rel" and len(a["q"]["segs"]) == 1 and a["q"]["segs"][0]["k"] == "desc":
+        if a.get("t") in ("rel", "root") and len(a["q"]["segs"]) == 1 and a["q"]["segs"][0]["k"] == "desc":
             return a["q"]["segs"][0], e["r"]["v"]
     return None
+
+
+def _embedded_is_root(sel: Dict[str, Any]) -> bool:
+    """[?$..x] / [?count($..x) > K]: the embedded segment starts at the query argument's root
+    (for every child alike), not at the child."""
+    e = sel["e"]
+    if e.get("t") == "cmp":
+        e = e["l"]["args"][0]
+    return e.get("t") == "root"
 
 
 def is_embedded_desc(sel: Dict[str, Any]) -> bool:
     return _embedded(sel) is not None
 
 
-def apply_child_seg(seg: Dict[str, Any], nodes: List[Tuple[Tuple, Any]], limit: float = INF, stats: Any = None) -> List[Tuple[Tuple, Any]]:
+def apply_child_seg(seg: Dict[str, Any], nodes: List[Tuple[Tuple, Any]], limit: float = INF, stats: Any = None, root: Any = None) -> List[Tuple[Tuple, Any]]:
     out = []
     for loc, v in nodes:
         for sel in seg["sels"]:
             if is_embedded_desc(sel):
                 # [?@..x]: the embedded descendant segment is applied to every child
-                # (in order); a child nested deeper than the limit raises
+                # (in order); a child nested deeper than the limit raises.  [?$..x]: it is
+                # applied to the root, once per child (never, if there is no child)
                 inner, threshold = _embedded(sel)
+                at_root = _embedded_is_root(sel)
+                memo = None
                 for k, c in children(v):
-                    if stats is not None:
-                        stats["max_nesting"] = max(stats["max_nesting"], nesting(c))
-                    status, res, work = descend(inner, [((), c)], limit, 2_000_000)
+                    target = root if at_root else c
+                    if at_root and memo is not None:
+                        status, res, work = memo  # the same walk for every child
+                    else:
+                        if stats is not None:
+                            stats["max_nesting"] = max(stats["max_nesting"], nesting(target))
+                        status, res, work = memo = descend(inner, [((), target)], limit, 2_000_000)
                     if stats is not None:
                         stats["work"] += work
                     if status == "raise":
@@ -167,7 +183,7 @@ def expected(qast: Dict[str, Any], doc: Any, limit: int, work_cap: int = 2_000_0
     for seg in qast["segs"]:
         if seg["k"] == "child":
             try:
-                nodes = apply_child_seg(seg, nodes, limit, stats)
+                nodes = apply_child_seg(seg, nodes, limit, stats, doc)
             except Raise:
                 return {"status": "raise", "work": work + stats["work"], "max_nesting": max(max_nest, stats["max_nesting"])}
             except ValueError:
